@@ -413,6 +413,15 @@ def parseMessage(rawMessage, oobFDs):
             pass
 
     if m.signature:
+        # The body signature is attacker supplied. Only a signature-sized
+        # string may drive the decoder: an arbitrarily long one (sent as a
+        # STRING or inside a container instead of a SIGNATURE) makes the
+        # work per body byte proportional to its own length.
+        if not isinstance(m.signature, str) or len(m.signature) > 255:
+            raise error.MarshallingError(
+                'Invalid signature header field'
+            )
+
         nbytes, m.body = marshal.unmarshal(
             m.signature,
             m.rawBody,
